@@ -119,6 +119,63 @@ def run_part(run, fails, stats):
                                           dict(w, user_entries=d and d["user_entries"])))
     finally:
         srv.stop()
+    # a confirmation that arrives WHILE a periodic save is being written (a large user dictionary makes the save slow): the
+    # compound must reach user.dic with a later save and survive a restart
+    ud2 = os.path.join(wd, "race-user")
+    os.makedirs(ud2, exist_ok=True)
+    srv = S.Server(bindir, dic, ud2, workers=4, save_secs=1)
+    try:
+        ready = False
+        if srv.wait_listening():
+            res = srv.conv("くるまで")
+            srv.rpc("UpdateFrequency", {"session_id": res[1]["session_id"], "candidate_id": "0"})
+            ready = S.wait_until(lambda: os.path.exists(os.path.join(ud2, "user.dic")) and os.path.exists(os.path.join(ud2, "frequency.bin")), 6.0)
+        srv.stop()
+        if ready:
+            filler = 400000 if run.tier == "thorough" else 150000
+            with open(os.path.join(ud2, "user.dic"), "a", encoding="utf-8") as f:
+                for i in range(filler):
+                    f.write("ん\t埋%d\t/一般名詞/\n" % i)
+            srv = S.Server(bindir, dic, ud2, workers=4, save_secs=1)
+            if srv.wait_listening(timeout=60.0):
+                res = srv.conv("おさけ", timeout=20.0)
+                ts = S.texts(res) or []
+                if "御酒" in ts:
+                    import glob
+                    # something to save: a plain confirmation just before (a server that skips idle saves still has to write now)
+                    plain = srv.conv("くるまで", timeout=20.0)
+                    srv.rpc("UpdateFrequency", {"session_id": plain[1]["session_id"], "candidate_id": "0"}, timeout=30.0)
+                    seen_tmp = S.wait_until(lambda: glob.glob(os.path.join(ud2, "*.tmp")) or None, 10.0, step=0.002)
+                    t0 = time.time()
+                    st, _ = srv.rpc("UpdateFrequency", {"session_id": res[1]["session_id"], "candidate_id": str(ts.index("御酒"))}, timeout=30.0)
+                    answered_after = round(time.time() - t0, 3)
+                    stats["compounds_confirmed"] += 1
+                    line = "おさけ\t御酒\t/一般名詞/"
+                    p2 = os.path.join(ud2, "user.dic")
+
+                    def has_line():
+                        try:
+                            with open(p2, encoding="utf-8", errors="replace") as fh:
+                                return line in fh.read().split("\n")
+                        except OSError:
+                            return False
+                    saved = S.wait_until(has_line, 12.0, step=0.2)
+                    w = {"input": "おさけ", "confirmed": "御酒", "user_dictionary_entries": filler, "save_period_s": 1,
+                         "confirmation_sent_while_tmp_file_existed": bool(seen_tmp), "confirmation": st,
+                         "confirmation_answered_after_s": answered_after}
+                    stats["race_with_save"] = w
+                    if st != "ok" or saved is None:
+                        fails.append(("compound-not-saved", {"kind": "compound-not-saved", "phase": "during-save"}, w))
+                    else:
+                        srv.stop()
+                        srv = S.Server(bindir, dic, ud2, workers=4, save_secs=1)
+                        if srv.wait_listening(timeout=60.0):
+                            got = S.texts(srv.conv("おさけてき", timeout=20.0)) or []
+                            if "御酒的" not in got:
+                                fails.append(("compound-lost-by-restart", {"kind": "compound-lost-by-restart", "phase": "during-save"},
+                                              dict(w, probe="おさけてき", candidates=got[:8])))
+    finally:
+        srv.stop()
     dis = S.compare_with_model(run, runners)
     run.cov["server_model_disagreements"] = len(dis)
     if dis and not fails:
